@@ -51,12 +51,13 @@ Proof.
 Qed.
 Print Assumptions C10_head_only.
 
-(* within one do-while round of the head action, the bytes queued for the device grow exactly by what its send statements queued
+(* within one do-while round of the head action, the bytes queued for the device grow (as long as they fit the 64 KiB buffer; beyond that the
+   oldest unsent bytes are overwritten, F38) exactly by what its send statements queued
    (EvSent), and a round never emits a completion, a connect or a disconnect *)
 Theorem C10_bytes_by_statements_only : forall (rmatch : text -> text -> option pmatch) (compress : list text -> text) (sc : bool) fuel now sd a store fin sd' a' store' evs t,
   wf_action compress (sd_plugs sd) a -> inv_to sd a ->
   do_while rmatch compress sc fuel now sd a store [] None = Ok ((fin, sd', a', store', evs), t) ->
-  sd_to sd' = sd_to sd ++ sent_bytes evs /\ forallb ev_script evs = true /\ same_id a a' .
+  ((length (sd_to sd ++ sent_bytes evs) <= Z.to_nat MAX_DEV_BUF)%nat -> sd_to sd' = sd_to sd ++ sent_bytes evs) /\ forallb ev_script evs = true /\ same_id a a' .
 Proof.
   exact p_C10_bytes_by_statements_only.
 Qed.
@@ -80,7 +81,7 @@ Print Assumptions C10_callbacks_live.
 
 (* non-vacuity: a device with a login and an `on` script, run through a history with a time-out *)
 Definition ex_rmatch : text -> text -> option pmatch := fun _ _ => None.
-Definition ex_compress : list text -> text := fun _ => [].
+Definition ex_compress : list text -> text := fun l => concat (map (fun t => t ++ [44%N]) l).     (* grows with its input: names joined by commas *)
 Definition ex_dev : device :=
   mk_device (bslit "d0") [mkPlug (bslit "p1") (Some (bslit "n1"))]
             [(PM_LOG_IN, [Send (bslit "login\n"); Expect (bslit "ok")]); (PM_POWER_ON, [Send (bslit "on %s\n"); Expect (bslit "done")])] 5000000 0.
